@@ -52,6 +52,8 @@ class StepOperationExecutor(OperationExecutor[T]):
     that complete synchronously, avoiding unnecessary execution or suspension.
     """
 
+    runs_user_code = True
+
     def __init__(
         self,
         func: Callable[[StepContext], T],
